@@ -702,6 +702,12 @@ package bt
 // modified; for FORKID types C02 proves it equal to SHA256d of the BIP143 preimage)
 //@ func bt.(*Tx).CalcInputSignatureHash
 //@   define (=> (= err nil) (= (bytes r0) (digest_of tx inputNumber sigHashFlag)))
+// the digest algorithm in force is chosen by bit 0x40 of the hash type alone (C04: the spent value is committed to under
+// FORKID, whatever the base type); same statements as C02.strategy / C02.sighash, counted under C04 as well
+//@ func bt.(*Tx).sigStrat
+//@   ensures[C04.algorithm_by_forkid_bit] (and (not (nil? result)) (= (fnrecv result) tx) (= (fnid result) (ite (= (mod (div shf 64) 2) 1) (fn-id "bt.(*Tx).CalcInputPreimage$bound") (fn-id "bt.(*Tx).CalcInputPreimageLegacy$bound"))))
+//@ func bt.(*Tx).CalcInputSignatureHash
+//@   ensures[C04.forkid_digest] (=> (and (= err nil) (= (mod (div sigHashFlag 64) 2) 1)) (= (bytes r0) (bsha256d (old (spec.preimage143 tx inputNumber sigHashFlag)))))
 
 // ---- C16: the hex shortcut of Tx.UnmarshalJSON installs every field of the parsed transaction ----
 //@ func bt.(*Tx).UnmarshalJSON
